@@ -23,6 +23,8 @@ func init() {
 		Controls: []controlExpect{
 			{"C18.GLOBALS", "zzControlBadGlobalC18", true},
 			{"C18.GLOBALS", "zzControlGoodGlobalC18", false},
+			{"C18.COWMAP", "zzControlBad_C18_COWMAP", true},
+			{"C18.COWMAP", "zzControlGood_C18_COWMAP", false},
 		},
 	})
 }
